@@ -89,16 +89,20 @@ Proof. exact ranges_scalar_ok. Qed.
 Print Assumptions C12_ranges_scalar.
 
 (* --- agreement with the ECMAScript grammar on the fragment ---
-   in_fragment u l (Regex/FragParser.v), a left-to-right scan of the units of l in the mode u:
-     a backslash is followed by a unit x, which is skipped, where with u, x is not k, p or P (named references, property
-       escapes), and if x is one of the digits 1-9, the decimal number that starts at x is below 2^63;
-     every other unit is any unit except an opening bracket `[` (classes: see C12_recogniser_decides_grammar below);
-     every `(?<` is followed by `=` or `!` (look-behind; named groups are outside the fragment);
-     where a `{` starts a syntactically complete `{n}` `{n,}` `{n,m}`, n and m are below 2^63.
+   in_fragment u l (Regex/FragParser.v), a left-to-right scan of the units of l in the mode u, outside and inside classes (a
+   class runs from an unescaped `[` to the next unescaped `]`):
+     a backslash is followed by a unit x, which is skipped, where with u, x is not p or P (property escapes) and, outside a
+       class, not k (named references); outside a class, if x is one of the digits 1-9, the decimal number that starts at x is
+       below 2^63;
+     outside a class every `(?<` is followed by `=` or `!` (look-behind; named groups are outside the fragment), and where a
+       `{` starts a syntactically complete `{n}` `{n,}` `{n,m}`, n and m are below 2^63.
    Pattern u (Regex/Grammar.v): the ES2022 grammar (22.2.1 + Annex B behind the u switch) and early errors of the fragment
    Disjunction, Alternative, Term (incl. Annex B QuantifiableAssertion Quantifier), Assertion ^ $ \b \B (?= (?! (?<= (?<!,
    Quantifier * + ? {n} {n,} {n,m} with lazy suffix (early error: n > m, on the unbounded values), Atom = PatternCharacter | . |
-   \ AtomEscape | ( ) | (?: ), AtomEscape = DecimalEscape | CharacterClassEscape d D s S w W | CharacterEscape, where a
+   \ AtomEscape | CharacterClass | ( ) | (?: ), CharacterClass = [ ClassRanges ] | [^ ClassRanges ] with ClassAtom = - | a unit
+   other than \ ] - | \ ClassEscape, ClassEscape = b | - (with u) | c digit-or-underscore (without u) | CharacterClassEscape |
+   CharacterEscape, the early errors of ranges (CharacterValue of the first endpoint above that of the second; with u a class
+   escape as an endpoint), AtomEscape = DecimalEscape | CharacterClassEscape d D s S w W | CharacterEscape, where a
    DecimalEscape must not exceed NcapturingParens, the number of capturing groups of the whole pattern (an early error with u;
    without u Annex B reads it as a legacy octal escape or an identity escape instead), CharacterEscape = ControlEscape
    f n r t v | c ControlLetter | 0 (not before a digit) | x HexDigit HexDigit | RegExpUnicodeEscapeSequence (uXXXX, with u also
@@ -120,12 +124,9 @@ Theorem C12_fragment_reject : forall st s u, in_fragment u (visible_units s u) =
 Proof. exact fragment_reject. Qed.
 Print Assumptions C12_fragment_reject.
 
-(* the executable recogniser that is cross-validated against V8 decides the grammar (every input, both modes).  Grammar.v
-   also has CharacterClass with ClassRanges, ClassAtom, ClassEscape (b, - with u, c ClassControlLetter without u, class and
-   character escapes), the CharacterValue of every escape and the early errors of ranges (out of order; a class as an endpoint
-   with u) -- so on classes the grammar is stated and decided by the recogniser, and compared with V8, while the agreement of
-   the validator model with it (C12_fragment_equiv) is proved for inputs without classes only.  in_grammar (the inputs on which
-   Grammar.v is the whole ES2022 grammar: no named groups, no property escapes, no \k with u) contains in_fragment. *)
+(* the executable recogniser that is cross-validated against V8 decides the grammar (every input, both modes).  in_grammar
+   (the inputs on which Grammar.v is the whole ES2022 grammar: no named groups, no property escapes, no \k with u; where the
+   recogniser is compared with V8) contains in_fragment, which adds the bounds on decimal numbers. *)
 Theorem C12_recogniser_decides_grammar : forall u l, recognises u l = true <-> Pattern u l.
 Proof. exact recognises_iff_Pattern. Qed.
 Print Assumptions C12_recogniser_decides_grammar.
@@ -150,9 +151,9 @@ Print Assumptions C12_in_fragment_in_grammar.
    ex_backrefs = (a)\1  \1(a)  ((a))\2  (?=(a))\1  (a)(b)(c)(d)(e)(f)(g)(h)(i)(j)\10 : Patterns, accepted, both modes;
    ex_backrefs_annexb = \1  (a)\2  \8  \18  \00  \07  \377  \400  \08  (?:a)\1  \(\1  (a)\18 : Patterns and accepted without u only;
    \1**  (\1  \1{2,1} : neither Patterns nor accepted, both modes;
-   classes (grammar and recogniser only): ex_classes = [a-z] [^a] [] [^] [a-] [-a] [--a] [\b-a] [\-] [\ca-\cb] [\0-9] [a-b-c] [\n-\r] [(]
+   classes: ex_classes = [a-z] [^a] [] [^] [a-] [-a] [--a] [\b-a] [\-] [\ca-\cb] [\0-9] [a-b-c] [\n-\r] [(]
    ([(])\1 [\]] [[] are Patterns in both modes; ex_classes_annexb = [\d-a] [a-\d] [\c1] [\c_-a] [\c] [\1] [\8] [\x4] [b-\u{61}] [a]] [\B] [\k]
-   [\00-\07] [\_] without u only; [z-a] [a--] [a-\b] [\r-\n] [a-\-] [a [\] in neither mode *)
+   [\00-\07] [\_] without u only; [z-a] [a--] [a-\b] [\r-\n] [a-\-] [a [\] in neither mode (Patterns / accepted by the validator alike) *)
 Example C12_fragment_example_valid : forall st u,
   in_fragment u ex_valid = true /\ Pattern u ex_valid /\ verdict_of (validate_pattern st ex_valid u) = VOk.
 Proof. intros st u. split; [exact (ex_valid_ok u)|split; [exact (ex_valid_pattern u) | exact (ex_valid_accepted st u)]]. Qed.
@@ -193,12 +194,14 @@ Proof. exact ex_backrefs_annexb_modes. Qed.
 Example C12_fragment_example_backrefs_invalid : forall st u l, In l [[92;49;42;42]; [40;92;49]; [92;49;123;50;44;49;125]] ->
   ~ Pattern u (visible_units l u) /\ verdict_of (validate_pattern st l u) <> VOk.
 Proof. exact ex_backrefs_invalid. Qed.
-Example C12_grammar_example_classes : forall u l, In l ex_classes -> in_grammar u l = true /\ Pattern u l.
+Example C12_fragment_example_classes : forall st u l, In l ex_classes ->
+  Pattern u (visible_units l u) /\ verdict_of (validate_pattern st l u) = VOk.
 Proof. exact ex_classes_patterns. Qed.
-Example C12_grammar_example_classes_annexb : forall l, In l ex_classes_annexb ->
-  (in_grammar false l = true /\ Pattern false l) /\ (in_grammar true l = true /\ ~ Pattern true l).
+Example C12_fragment_example_classes_annexb : forall st l, In l ex_classes_annexb ->
+  (Pattern false l /\ verdict_of (validate_pattern st l false) = VOk) /\
+  (~ Pattern true l /\ verdict_of (validate_pattern st l true) <> VOk).
 Proof. exact ex_classes_annexb_modes. Qed.
-Example C12_grammar_example_classes_invalid : forall u l,
+Example C12_fragment_example_classes_invalid : forall st u l,
   In l [[91;122;45;97;93]; [91;97;45;45;93]; [91;97;45;92;98;93]; [91;92;114;45;92;110;93]; [91;97;45;92;45;93]; [91;97]; [91;92;93]] ->
-  in_grammar u l = true /\ ~ Pattern u l.
+  ~ Pattern u (visible_units l u) /\ verdict_of (validate_pattern st l u) <> VOk.
 Proof. exact ex_classes_invalid. Qed.
